@@ -250,6 +250,12 @@ def T3(m, R):
             R.viol(W, vn, '%s = %s (%d) but the code that clears this group is %s' % (cons, v.name, code, sorted(want)), construct=cons)
         elif code in tbl and tbl[code][0] != eff:
             R.viol(W, vn, '%s = %d whose own group is %s' % (cons, code, tbl[code][0]), construct=cons)
+        elif code in tbl and tbl[code][1] != 'CLEAR':
+            # writer and reader must agree: the renderer writes this code to switch the effect off, the parser must read it as switching it off
+            R.viol(W, vn, '%s = %s (%d): the renderer emits %d to switch %s off, but the code table classes %d as %s_SETTING of %s -- read back, the code '
+                          'sets a new %s setting instead of ending one, so a value whose %s setting ends before the end of the text does not re-parse to itself: '
+                          'ESC[1;%dm a ESC[%dm bc re-parses with %d active on "bc" as well, and a second simplify() changes str(s)' % (
+                              cons, v.name, code, code, eff, code, tbl[code][1], eff, eff, eff, code, code, code), construct=cons)
         else:
             R.ok(W, vn, '%s = %s (%d) is the reference off-code' % (cons, v.name, code), construct=cons)
     # RESET -> 0
